@@ -39,9 +39,12 @@ const (
 	ForceKey    = "atlassian.com/escalator-force"
 	NoDeleteKey = "atlassian.com/no-delete"
 	CpuUnit     = int64(100)     // milli-cores per abstract cpu unit
-	MemUnit     = int64(1 << 20) // bytes per abstract memory unit
 	NS          = "ns"
 )
+
+// MemUnit: bytes per abstract memory unit. 1 MiB by default; `drive -huge` makes it 1 TiB (a power of two, so every
+// float64 ratio the code computes is bit-identical) to put group totals beyond 2^63 / 1e5 milli-bytes.
+var MemUnit = int64(1 << 20)
 
 var nodeGVR = v1.SchemeGroupVersion.WithResource("nodes")
 var podGVR = v1.SchemeGroupVersion.WithResource("pods")
